@@ -86,74 +86,105 @@ class Obs:
     pass
 
 
-def run_schedule(K, T, events, exact=True, t0=0, with_call=False, start=None):
-    """events: list of (kind, t) with kind in rx | rxbad | tick | close, t non-decreasing (same unit as K, T).
-    Returns an Obs with: torn (times of connectionTimedOut), lose (times of loseConnection), pings (times a PING
-    was written), ka / dc (expiry of the pending timer or None) after each event, last_rx, attrs, call results."""
-    set_mode(exact)
-    if t0:
-        E.clock.advance(t0)
-    b = broker.Broker(TubRef("x"), keepaliveTimeout=K, disconnectTimeout=T)
-    tr = FT()
-    b.transport = tr
-    o = Obs()
-    o.torn = []
-    orig_cto = b.connectionTimedOut
+class Run:
+    """one connection of a real Broker driven event by event.
+    kinds: rx | rxbad | tick | close (at the given time, non-decreasing, same unit as K and T)."""
 
-    def cto():
-        o.torn.append(E.clock.seconds())
-        return orig_cto()
-    b.connectionTimedOut = cto
-    with E.quiet():
-        b.connectionMade()
+    def __init__(self, K, T, exact=True, t0=0, with_call=0):
+        set_mode(exact)
+        self.exact = exact
+        if t0:
+            E.clock.advance(t0)
+        self.K, self.T, self.t0 = K, T, t0
+        b = self.b = broker.Broker(TubRef("x"), keepaliveTimeout=K, disconnectTimeout=T)
+        tr = self.tr = FT()
+        b.transport = tr
+        o = self.o = Obs()
+        o.torn = []
+        orig_cto = b.connectionTimedOut
+
+        def cto():
+            o.torn.append(E.clock.seconds())
+            return orig_cto()
+        b.connectionTimedOut = cto
         o.results = []
-        if with_call:
-            tracker = referenceable.RemoteReferenceTracker(b, 1, None, None)
-            rr = referenceable.RemoteReference(tracker)
-            for i in range(with_call):
-                d = rr.callRemote("never_answered", i)
-                d.addBoth(lambda r, i=i: o.results.append((i, E.clock.seconds(), r)))
-            E.turn()
-            o.rr = rr
-        nout0 = len(tr.out)
-        o.trace = []
         o.exc = None
-        closed = False
-        for kind, t in events:
-            try:
+        o.events = []
+        with E.quiet():
+            b.connectionMade()
+            if with_call:
+                tracker = referenceable.RemoteReferenceTracker(b, 1, None, None)
+                rr = referenceable.RemoteReference(tracker)
+                for i in range(with_call):
+                    d = rr.callRemote("never_answered", i)
+                    d.addBoth(lambda r, i=i: o.results.append((i, E.clock.seconds(), r)))
+                E.turn()
+                o.rr = rr
+        self.nout0 = len(tr.out)
+        o.trace = [self.pending()]
+        o.counts = [(0, 0)]
+        o.closed_at = None
+
+    def pending(self):
+        tc = timer_calls(self.b)
+        return (self.norm(one(tc.get("keepaliveTimerFired"))), self.norm(one(tc.get("disconnectTimerFired"))))
+
+    def norm(self, x):
+        if self.exact and isinstance(x, float) and x == int(x):
+            return int(x)
+        return x
+
+    def step(self, kind, t):
+        o, b = self.o, self.b
+        if o.exc:
+            return
+        o.events.append((kind, t))
+        try:
+            with E.quiet():
                 if kind == "tick":
                     advance_to(t)
                 else:
-                    # arrival / close happen at time t without running the timers that are due at t:
-                    # move the clock without firing (the reactor has not yet got round to them)
-                    E.clock.rightNow = t if exact else float(t)
+                    # an arrival / close at time t happens before the reactor gets round to the timers due at t
+                    if t < E.clock.seconds():
+                        raise ValueError("time goes backwards")
+                    E.clock.rightNow = t
                     if kind == "rx":
                         b.dataReceived(PONG)
                     elif kind == "rxbad":
                         b.dataReceived(b"\x00" * 70)   # 65+ header bytes without a type byte: BananaError
                     elif kind == "close":
                         b.connectionLost(failure.Failure(ConnectionDone()))
-                        closed = True
-                    # eventual-sends only (delay 0 calls queued by the code), never the timers
-                    run_eventuals(b)
-            except Exception as e:  # the property's code must not raise
-                o.exc = "%s at %r: %s" % (type(e).__name__, (kind, t), e)
-                break
-            tc = timer_calls(b)
-            o.trace.append((one(tc.get("keepaliveTimerFired")), one(tc.get("disconnectTimerFired"))))
-    o.dup_timers = any(isinstance(x, tuple) for st in o.trace for x in st)
-    o.lose = list(tr.lose_at)
-    o.pings = [t for (t, d) in tr.out[nout0:] if d == PING]
-    o.other_writes = [(t, d) for (t, d) in tr.out[nout0:] if d != PING]
-    o.last_rx = getattr(b, "dataLastReceivedAt", None)
-    o.attr_ka = b.keepaliveTimer is not None
-    o.attr_dc = b.disconnectTimer is not None
-    o.use = b.useKeepalives
-    o.broker = b
-    o.leftover = timer_calls(b)
-    o.closed = closed
-    restore()
-    return o
+                        if o.closed_at is None:
+                            o.closed_at = t
+                    else:
+                        raise ValueError(kind)
+                    run_eventuals(b)    # eventual-sends only, never the timers
+        except Exception as e:  # the code under test must not raise
+            o.exc = "%s at %r: %s" % (type(e).__name__, (kind, t), e)
+        o.trace.append(self.pending())
+        o.counts.append((len(o.torn), sum(1 for (_, d) in self.tr.out[self.nout0:] if d == PING)))
+
+    def finish(self):
+        o, b, tr = self.o, self.b, self.tr
+        o.dup_timers = any(isinstance(x, tuple) for st in o.trace for x in st)
+        o.lose = list(tr.lose_at)
+        o.pings = [t for (t, d) in tr.out[self.nout0:] if d == PING]
+        o.other_writes = [(t, d) for (t, d) in tr.out[self.nout0:] if d != PING]
+        o.last_rx = getattr(b, "dataLastReceivedAt", None)
+        o.attr_ka = b.keepaliveTimer is not None
+        o.attr_dc = b.disconnectTimer is not None
+        o.use = b.useKeepalives
+        o.leftover = timer_calls(b)
+        o.all_delayed = len(E.clock.getDelayedCalls())
+        restore()
+        return o
+
+
+def run_schedule(K, T, events, exact=True, t0=0, with_call=0):
+    r = Run(K, T, exact, t0, with_call)
+    for kind, t in events:
+        r.step(kind, t)
+    return r.finish()
 
 
 def one(xs):
